@@ -32,6 +32,9 @@ func c09(c *Ctx) {
 	c05R4(c)
 	// what a GC pass writes (the demoted sticky flag, the deleted record) reaches the disk (shared rule)
 	c05R3(c)
+	c09R8(c)
+	// a handler that dead-locks against the queued collector stops collection for good (shared rule)
+	c04R7(c)
 }
 
 func c09R1(c *Ctx) {
@@ -741,4 +744,48 @@ func c09CallbackReturns(c *Ctx, fn *FuncInfo, body *ast.BlockStmt, sig *types.Si
 		}
 		c.Check(ok, "C09.R7", fn.Name+": the polling callback returns (false, nil)", p.Pos(r), fn.Key(), "every return of the callback yields the constants false, nil", why)
 	}
+}
+
+// R8: releasing cannot fail on a stale record. The pools' Release methods only
+// update in-memory ownership; for a record whose address the pool no longer
+// tracks (unassigned out of band, interface gone) they succeed without doing
+// anything. gcPods returns on the first release error, so an implementation
+// that reported "not tracked" as an error would stop every pass at that record.
+func c09R8(c *Ctx) {
+	p := c.P
+	c.Rule("C09.R8", "the NetworkInterface.Release implementations of pkg/eni report no error of their own: every return yields a nil error or forwards another implementation's Release — a stale record never makes the collector's release fail")
+	n := 0
+	for _, tn := range []string{"Local", "Remote", "Trunk", "CRDV2"} {
+		fn := p.Func(eniPkg, tn+".Release")
+		if fn == nil {
+			continue
+		}
+		info := fn.Info()
+		sig := fn.Obj.Type().(*types.Signature)
+		ei := errResultIndex(sig)
+		if ei < 0 {
+			continue
+		}
+		for _, r := range declReturns(fn.Decl.Body) {
+			n++
+			ok, why := false, ""
+			switch {
+			case len(r.Results) == sig.Results().Len():
+				ok = info.Types[ast.Unparen(r.Results[ei])].IsNil()
+				why = "returns " + exprString(r.Results[ei])
+			case len(r.Results) == 1:
+				// return x.Release(…): another implementation, checked on its own
+				if call, isC := ast.Unparen(r.Results[0]).(*ast.CallExpr); isC {
+					if f := Callee(info, call); f != nil && f.Name() == "Release" {
+						ok = true
+					}
+				}
+				why = "forwards " + exprString(r.Results[0])
+			default:
+				why = "bare return"
+			}
+			c.Check(ok, "C09.R8", tn+".Release reports no error of its own", p.Pos(r), fn.Key(), "nil error, or a forwarded Release", why)
+		}
+	}
+	c.Floor("C09.R8", "returns of the Release implementations", 4, n)
 }
